@@ -599,6 +599,24 @@ func runC17(t *simrt.Tape, o Opts) Outcome {
 				return
 			}
 		}
+		// the same plugin object unwraps the same envelope again (a rebuilt factory, a system key evicted
+		// from its cache, caching off): the consumer of the first result wiped it, as the SDK does
+		// when it moves the key into protected memory
+		if err == nil && !swept {
+			for i := range out {
+				out[i] = 0
+			}
+			count(st.Oracle, "unwrap-again")
+			again, err2 := unwrapper.DecryptKey(context.Background(), blob)
+			if err2 != nil {
+				violate("unwrap-result", "%s: a second unwrap of the same envelope through the same plugin object failed: %v", desc, err2)
+				return
+			}
+			if !bytes.Equal(again, orig) {
+				violate("unwrap-bytes", "%s: a second unwrap of the same envelope through the same plugin object (the first result was wiped by its consumer) returned other bytes", desc)
+				return
+			}
+		}
 	})
 	out := Outcome{Viols: viols}
 	st.Nontrivial = wm != 0 || um != 0
@@ -613,7 +631,7 @@ func runC17(t *simrt.Tape, o Opts) Outcome {
 			out.Viols = append(out.Viols, world.Violation{Prop: "C17", Rule: "deadlock", Signature: "C17/deadlock", Msg: f.Msg})
 		case simrt.FailPanic:
 			out.Infra = nil
-			out.Viols = append(out.Viols, world.Violation{Prop: "C17", Rule: "panic", Signature: "C17/goroutine-panic", Msg: f.Msg + "\n" + f.Stack})
+			out.Viols = append(out.Viols, world.Violation{Prop: "C17", Rule: "panic", Signature: "C17/" + panicKind(f.Msg), Msg: f.Msg + "\n" + f.Stack})
 		}
 	}
 	return out
